@@ -12,7 +12,7 @@
 //
 // Ops (a case starts with `reset [next=N]`):
 //
-//	open c=K | in c=K it=<f:pk,..|bad|err|eof> | rd c=K [w=0] | rds c=K [w=0] | wr c=K ok=<0|1> |
+//	open c=K [cbp=<h|c>] [ce=<1|f>] [oa=<k|p>] | in c=K it=<f:pk,..|bad|err|eof> | rd c=K [w=0] | rds c=K [w=0] | wr c=K ok=<0|1> |
 //	adv dt=MS | kick c=K | okick c=K | push c=K | spush c=K | drain | end
 package c05
 
@@ -93,6 +93,9 @@ type pconn struct {
 	filled   bool     // its send queue was filled up by `fill`
 	ce       string   // conn.Close() returns an error: "1" every call, "f" the first call only (client-side abort, ECONNRESET)
 	np       int      // pushes that reached this session through the owner's ClientSessions (PushMsg)
+	oa       string   // what the owner's handler does with the session from inside OnSessionAdd: k = kicks it (refuses it), p = pushes a greeting to its id
+	tb       string   // the owner's table as the handler finds it from inside its callbacks: at the add (1 = the announced session is registered
+	// under its id, 0 = nothing / something else is), then at the remove (0 = the id is gone, 1 = still registered)
 	w        *wsess
 }
 
@@ -336,6 +339,24 @@ func (r *rec) OnSessionAdd(fs *cs.FrontSession) {
 		return
 	}
 	c.ow = append(c.ow, fmt.Sprintf("a%d", fs.GetNetId()))
+	// the announced session is a live session of the table from this moment on: lookups, kicks and pushes by its id work
+	if r.h.css.GetSession(fs.GetNetId()) == fs {
+		c.tb += "1"
+	} else {
+		c.tb += "0"
+	}
+	defer func() {
+		switch c.oa {
+		case "k":
+			// the handler refuses the connection (server full, banned address)
+			r.h.css.Kick(fs.GetNetId())
+		case "p":
+			// a greeting (a push that would park the owner on a full send queue is not made)
+			if !r.h.wouldBlock(c) {
+				r.h.css.PushMsg(&msgs.PushMsg{Ids: []uint32{fs.GetNetId()}, Route: "onWelcome", Data: []byte(`{"n":0}`)})
+			}
+		}
+	}()
 	// a per-session close callback registered with the real HandlerComponent
 	r.h.hc.AddOnSessionClose(fs.GetNetId(), func(ns *service.NodeService, fs *cs.FrontSession) {
 		r.h.cbH++
@@ -348,6 +369,13 @@ func (r *rec) OnSessionAdd(fs *cs.FrontSession) {
 func (r *rec) OnSessionRemove(fs *cs.FrontSession) {
 	c := r.connOfFS(fs)
 	r.h.cbH = 0
+	if c != nil && fs != nil {
+		if r.h.css.GetSession(fs.GetNetId()) != nil {
+			c.tb += "1"
+		} else {
+			c.tb += "0"
+		}
+	}
 	// recorded whatever the callback does (a panic travels on to the scheduler's recover)
 	defer func() {
 		if c != nil {
@@ -596,8 +624,8 @@ func (h *H) obs(k int, extra string) string {
 		if c.wrParked {
 			wr = "p"
 		}
-		fmt.Fprintf(&sb, "c%d:st=%d,rd=%c,wr=%s,cc=%d,nw=%d,hw=%d,np=%d,ev=%s,ow=%s", c.k, c.sess.GetStatus(), c.rdState, wr, c.nclose, c.nw, c.hw, c.np,
-			strings.Join(c.ev, ""), strings.Join(c.ow, ""))
+		fmt.Fprintf(&sb, "c%d:st=%d,rd=%c,wr=%s,cc=%d,nw=%d,hw=%d,np=%d,ev=%s,ow=%s,tb=%s", c.k, c.sess.GetStatus(), c.rdState, wr, c.nclose, c.nw, c.hw, c.np,
+			strings.Join(c.ev, ""), strings.Join(c.ow, ""), c.tb)
 		c.mu.Unlock()
 		if ck == k {
 			sb.WriteString(extra)
@@ -693,6 +721,7 @@ func (h *H) exec(op string) string {
 			rdState: 'x', hsOK: true}
 		c.cbp, _ = hx.KV(ws, "cbp")
 		c.ce, _ = hx.KV(ws, "ce")
+		c.oa, _ = hx.KV(ws, "oa")
 		h.conns[k] = c
 		h.order = append(h.order, k)
 		h.mu.Lock()
@@ -961,6 +990,12 @@ func (g *gen) next(maxConn int) string {
 			op += " ce=1" // closing the socket reports an error (the peer had reset it)
 		case 1:
 			op += " ce=f"
+		}
+		switch R.Intn(14) {
+		case 0:
+			op += " oa=k" // the owner's handler kicks the session from inside OnSessionAdd
+		case 1:
+			op += " oa=p" // ... pushes a greeting to it
 		}
 		return op
 	}
